@@ -1,5 +1,6 @@
 import LeptosModel.Proofs.RViewSigVal
 import LeptosModel.Proofs.RViewErrb
+import LeptosModel.Proofs.RViewTop
 /-!
 # Proofs/RViewMCount — the register of a boundary counts the `Result` leaves below it that are in error
 
@@ -46,12 +47,16 @@ structure Tame (st st' : St) : Prop where
   prog : st'.prog = st.prog
   zombies : st'.zombies = st.zombies
   tasks : st'.tasks = st.tasks
+  root : st'.root = st.root
+  rootN : st'.rootN = st.rootN
+  disposed : st'.disposed = st.disposed
   len : st'.rs.nodes.length = st.rs.nodes.length
   kind : ∀ i, (st'.rs.get i).kind = (st.rs.get i).kind
 
-theorem Tame.refl (st : St) : Tame st st := ⟨rfl, rfl, rfl, rfl, fun _ => rfl⟩
+theorem Tame.refl (st : St) : Tame st st := ⟨rfl, rfl, rfl, rfl, rfl, rfl, rfl, fun _ => rfl⟩
 theorem Tame.trans {a b c : St} (h1 : Tame a b) (h2 : Tame b c) : Tame a c :=
-  ⟨h2.prog.trans h1.prog, h2.zombies.trans h1.zombies, h2.tasks.trans h1.tasks, h2.len.trans h1.len,
+  ⟨h2.prog.trans h1.prog, h2.zombies.trans h1.zombies, h2.tasks.trans h1.tasks, h2.root.trans h1.root,
+    h2.rootN.trans h1.rootN, h2.disposed.trans h1.disposed, h2.len.trans h1.len,
     fun i => (h2.kind i).trans (h1.kind i)⟩
 
 theorem SigAt.tame {sg : Nat} {st st' : St} (h : SigAt sg st) (ht : Tame st st') : SigAt sg st' :=
@@ -65,7 +70,7 @@ theorem bump_rs {sg : Nat} {st : St} (h : SigAt sg st) (d : Int) :
 theorem bump_tame {sg : Nat} {st : St} (h : SigAt sg st) (d : Int) : Tame st (bump st sg d) := by
   have hk : (st.rs.get sg).kind ≠ .eff := by rw [h.ksig]; simp
   have hsk := setSignal_sk (X := fun _ => False) (fuelFor st.prog) st.rs sg (((st.rs.get sg).val.getD 0) + d) hk
-  refine ⟨rfl, rfl, rfl, ?_, ?_⟩
+  refine ⟨rfl, rfl, rfl, rfl, rfl, rfl, ?_, ?_⟩
   · rw [bump_rs h]; exact hsk.len
   · intro i; rw [bump_rs h]; exact hsk.kind i
 
@@ -74,7 +79,7 @@ theorem bump_env {sg : Nat} {st : St} (h : SigAt sg st) (d : Int) :
   obtain ⟨v0, hv⟩ := h.psig
   exact bump_val st sg d v0 hv h.lt
 
-theorem alloc_tame (st : St) : Tame st st.alloc.2 := ⟨rfl, rfl, rfl, rfl, fun _ => rfl⟩
+theorem alloc_tame (st : St) : Tame st st.alloc.2 := ⟨rfl, rfl, rfl, rfl, rfl, rfl, rfl, fun _ => rfl⟩
 
 /-- **the re-run of an effect inside a leafy tree keeps the register balanced** -/
 theorem rerunIn_count (sg e : Nat) (w : Int) : ∀ (t : RState) (st : St), t.leafy = true →
@@ -95,8 +100,15 @@ theorem rerunIn_count (sg e : Nat) (w : Int) : ∀ (t : RState) (st : St), t.lea
     intro st hl hh hs
     simp only [RState.leafy, Bool.and_eq_true] at hl
     have ha := iha st hl.1 hh.1 hs
-    have hb := ihb (rerunIn e w a st).2.1 hl.2 hh.2 (hs.tame ha.1)
-    simp only [rerunIn, RState.leafy, hooksAre, errCount, ha.2.1, hb.2.1, Bool.and_self]
+    simp only [rerunIn]
+    generalize rerunIn e w a st = ra at ha
+    obtain ⟨a', s1, da⟩ := ra
+    simp only at ha ⊢
+    have hb := ihb s1 hl.2 hh.2 (hs.tame ha.1)
+    generalize rerunIn e w b s1 = rb at hb
+    obtain ⟨b', s2, db⟩ := rb
+    simp only at hb ⊢
+    simp only [RState.leafy, hooksAre, errCount, ha.2.1, hb.2.1, Bool.and_self]
     refine ⟨ha.1.trans hb.1, trivial, ⟨ha.2.2.1, hb.2.2.1⟩, ?_⟩
     have h1 := ha.2.2.2; have h2 := hb.2.2.2
     omega
@@ -148,5 +160,99 @@ theorem rerunIn_count (sg e : Nat) (w : Int) : ∀ (t : RState) (st : St), t.lea
   | errb e' m s fb kid _ => intro st hl; simp [RState.leafy] at hl
   | hooked hk inner _ => intro st hl; simp [RState.leafy] at hl
   | errTok s => intro st hl; simp [RState.leafy] at hl
+
+/-! ## the invariant of a mounted boundary -/
+
+structure CountE (sg : Nat) (st : St) : Prop where
+  sig : SigAt sg st
+  zomb : st.zombies = []
+  tree : ∃ e m fb k, st.root = some (.errb e m sg fb k) ∧ k.leafy = true ∧ hooksAre (some sg) k ∧
+    envOf st.rs sg = errCount sg k
+  kinds : ∀ (i : Nat) (d : NodeDef), st.prog[i]? = some d → (st.rs.get i).kind = kindOf d
+  nw : ∀ (i : Nat) (x : Expr), st.prog[i]? = some (NodeDef.eff x) → x.noWrite = true
+  teff : ∀ e ∈ st.tasks, ∃ x : Expr, st.prog[e]? = some (NodeDef.eff x)
+
+/-- a reactive step that writes no signal -/
+theorem CountE.of_sg {sg : Nat} {st : St} (h : CountE sg st) {rs' : State} (hs : SG st.rs rs') :
+    CountE sg { st with rs := rs' } := by
+  obtain ⟨e, m, fb, k, hr, hl, hh, hc⟩ := h.tree
+  refine ⟨⟨h.sig.psig, by show sg < rs'.nodes.length; rw [hs.len]; exact h.sig.lt,
+    by show (rs'.get sg).kind = .sig; rw [hs.kind]; exact h.sig.ksig⟩, h.zomb,
+    ⟨e, m, fb, k, hr, hl, hh, ?_⟩, fun i d hd => by show (rs'.get i).kind = _; rw [hs.kind]; exact h.kinds i d hd,
+    h.nw, h.teff⟩
+  show envOf rs' sg = _
+  simp only [envOf, hs.sig sg h.sig.ksig]
+  exact hc
+
+theorem wrapFrom_nil (n : Nat) (h : Option Nat) : wrapFrom n h [] = [] := by simp [wrapFrom]
+
+/-- the state after the root pass and the (empty) zombie pass of a re-run -/
+def finE (s1 : St) (t : RState) (d : Nat) : St :=
+  { s1 with root := some t, rootN := ⟨s1.rootN.id, s1.rootN.muts + d⟩, zombies := [] }
+
+/-- **the DOM phase of a re-run keeps the register balanced** -/
+theorem rerun_count {sg : Nat} {st : St} (h : CountE sg st) (e : Nat) (w : Int) :
+    CountE sg (rerun st e w) ∧ (rerun st e w).prog = st.prog := by
+  obtain ⟨e', m, fb, k, hr, hl, hh, hc⟩ := h.tree
+  rw [rerun_some st e w _ hr]
+  have key : ∃ (fb' : Option N) (k' : RState) (s1 : St) (d : Nat),
+      rerunIn e w (.errb e' m sg fb k) { st with root := none } = (.errb e' m sg fb' k', s1, d) ∧
+      Tame { st with root := none } s1 ∧ k'.leafy = true ∧ hooksAre (some sg) k' ∧
+      envOf s1.rs sg = errCount sg k' := by
+    simp only [rerunIn]
+    by_cases he : e' = e
+    · rw [if_pos he]
+      cases fb with
+      | some n =>
+        by_cases hv : (w != 0) = true
+        · simp only [hv, if_true]
+          exact ⟨none, k, _, _, rfl, Tame.refl _, hl, hh, hc⟩
+        · simp only [hv, if_false]
+          exact ⟨some n, k, _, _, rfl, Tame.refl _, hl, hh, hc⟩
+      | none =>
+        by_cases hv : (w != 0) = true
+        · simp only [hv, if_true]
+          exact ⟨none, k, _, _, rfl, Tame.refl _, hl, hh, hc⟩
+        · simp only [hv, if_false]
+          exact ⟨_, k, _, _, rfl, alloc_tame _, hl, hh, hc⟩
+    · rw [if_neg he]
+      have hs0 : SigAt sg ({ ({ st with root := none } : St) with hook := some sg }) :=
+        ⟨h.sig.psig, h.sig.lt, h.sig.ksig⟩
+      have hk := rerunIn_count sg e w k ({ ({ st with root := none } : St) with hook := some sg }) hl hh hs0
+      simp only [underHook]
+      generalize rerunIn e w k ({ ({ st with root := none } : St) with hook := some sg }) = r at hk
+      obtain ⟨k', s1, d⟩ := r
+      simp only at hk ⊢
+      have hz1 : s1.zombies = [] := by rw [hk.1.zombies]; exact h.zomb
+      refine ⟨fb, k', _, _, rfl, ?_, hk.2.1, hk.2.2.1, ?_⟩
+      · exact ⟨hk.1.prog, by show wrapFrom _ _ s1.zombies = _; rw [hz1, wrapFrom_nil]; exact h.zomb.symm,
+          hk.1.tasks, hk.1.root, hk.1.rootN, hk.1.disposed, hk.1.len, hk.1.kind⟩
+      · have := hk.2.2.2
+        show envOf s1.rs sg = errCount sg k'
+        have hc' : envOf st.rs sg = errCount sg k := hc
+        have e1 : envOf ({ ({ st with root := none } : St) with hook := some sg }).rs sg = envOf st.rs sg := rfl
+        omega
+  obtain ⟨fb', k', s1, d, hrr, ht, hl', hh', hc'⟩ := key
+  have hz1 : s1.zombies = [] := by rw [ht.zombies]; exact h.zomb
+  have hfin : zpass (afterRoot st e w (.errb e' m sg fb k)) e w = finE s1 (.errb e' m sg fb' k') d := by
+    unfold zpass afterRoot finE
+    rw [hrr]
+    simp only [hz1, rerunZombies, List.append_nil]
+  rw [hfin]
+  refine ⟨⟨⟨by show ∃ v0, s1.prog[sg]? = _; rw [ht.prog]; exact h.sig.psig,
+      by show sg < s1.rs.nodes.length; rw [ht.len]; exact h.sig.lt,
+      by show (s1.rs.get sg).kind = .sig; rw [ht.kind]; exact h.sig.ksig⟩, rfl,
+    ⟨e', m, fb', k', rfl, hl', hh', hc'⟩, ?_, ?_, ?_⟩, ht.prog⟩
+  · intro i d' hd
+    show (s1.rs.get i).kind = _
+    rw [ht.kind]
+    exact h.kinds i d' (by rw [← ht.prog]; exact hd)
+  · intro i x hx
+    exact h.nw i x (by rw [← ht.prog]; exact hx)
+  · intro y hy
+    have hy' : y ∈ s1.tasks := hy
+    rw [ht.tasks] at hy'
+    obtain ⟨x, hx⟩ := h.teff y hy'
+    exact ⟨x, by show s1.prog[y]? = _; rw [ht.prog]; exact hx⟩
 
 end Leptos.RView
